@@ -171,6 +171,19 @@ def correspondence(ctx):
             kk = int(''.join(map(str, v)), 2)
             s.add(f'i2b {kk} {n}', guarded(lambda: vec([int(x) for x in bpauli.int_to_bvector(kk, n)])),
                   {'int': kk, 'n': n, 'fn': 'int_to_bvector'}, tag='i2b')
+    # weights of stacks (2-D input): dense of two dtypes and csr must agree with the model's sum over rows
+    for _ in range(40):
+        n, k = int(rng.integers(1, 7)), int(rng.integers(2, 6))
+        S = [[int(x) for x in rng.integers(0, 2, 2 * n)] for _ in range(k)]
+        if rng.random() < 0.3:
+            S[int(rng.integers(k))] = [0] * (2 * n)
+        Sa = np.array(S, dtype='uint8')
+        s.add(f'wtstack {stack(S)}', guarded(lambda: str(int(bpauli.bsf_wt(Sa)))),
+              {'stack': S, 'fn': 'bsf_wt dense 2-D'}, tag='wtstack')
+        s.add(f'wtstack {stack(S)}', guarded(lambda: str(int(bpauli.bsf_wt(Sa.astype('int64'))))),
+              {'stack': S, 'fn': 'bsf_wt dense 2-D int64'}, tag='wtstack')
+        s.add(f'wtstack {stack(S)}', guarded(lambda: str(int(bpauli.bsf_wt(csr_matrix(Sa))))),
+              {'stack': S, 'fn': 'bsf_wt sparse 2-D'}, tag='wtstack')
     # apply_deformation
     for _ in range(60):
         n = int(rng.integers(1, 12))
@@ -241,6 +254,19 @@ def check_case(case):
             k = bpauli.bvector_to_int(v)
             if list(map(int, bpauli.int_to_bvector(k, n))) != want:
                 return 'int_to_bvector(bvector_to_int(v)) != v'
+            return None
+        if kind == 'stack':
+            # a stack of operators in every 2-D representation: its weight is the number of non-identity
+            # letters of its Pauli strings, which are the strings of its rows
+            S = np.array(case['stack'], dtype='uint8')
+            strings = [bpauli.bsf_to_pauli(r) for r in S]
+            want = sum(1 for t in strings for c in t if c != 'I')
+            for label, M in (('dense uint8', S), ('dense int64', S.astype('int64')), ('csr', csr_matrix(S))):
+                got = int(bpauli.bsf_wt(M))
+                if got != want:
+                    return f'bsf_wt of the stack as {label} = {got}, its Pauli strings {strings} have {want} non-identity letters'
+                if list(bpauli.bsf_to_pauli(M)) != strings:
+                    return f'bsf_to_pauli of the stack as {label} differs from the strings of its rows'
             return None
         if kind == 'syndrome-sequence':
             from harness import codes as K
@@ -328,6 +354,10 @@ def oracle_cases(ctx, deep):
             cases.append({'kind': 'roundtrip', 'pauli': ''.join(p)})
     for n in rng.integers(4, 120, 30):
         cases.append({'kind': 'roundtrip', 'pauli': ''.join(rng.choice(list('IXYZ'), int(n)))})
+    for _ in range(60 if deep else 25):
+        n, k = int(rng.integers(1, 7)), int(rng.integers(2, 6))
+        cases.append({'kind': 'stack', 'stack': [[int(x) for x in rng.integers(0, 2, 2 * n)] for _ in range(k)]})
+    cases.append({'kind': 'stack', 'stack': [[1, 0, 0, 1], [1, 1, 1, 1], [0, 0, 0, 0]]})    # corpus: fix 95658e4
     for _ in range(40):
         r, c = int(rng.integers(1, 8)), int(rng.integers(1, 10))
         cases.append({'kind': 'brank', 'matrix': [[int(x) for x in rng.integers(0, 2, c)] for _ in range(r)]})
